@@ -200,6 +200,8 @@ macro_rules! transposing_joiner {
     ($a:expr, $b:expr, $c:expr) => {{ $crate::support::ev($crate::support::code($crate::support::K_JOINER, 0, 0, 3)); let (a, b, c) = ($a, $b, $c); a.and_then(|a| b.and_then(|b| c.map(|c| (a, b, c)))) }};
 }
 #[macro_export]
+macro_rules! lazy_async_joiner { ($($b:expr),+) => {{ $crate::support::ev($crate::support::code($crate::support::K_JOINER, 0, 0, 0 $(+ { let _ = stringify!($b); 1 })+)); ::futures::join!($(($b)()),+) }}; }
+#[macro_export]
 macro_rules! log_try_join { ($($b:expr),+) => {{ $crate::support::ev($crate::support::code($crate::support::K_JOINER, 0, 0, 0 $(+ { let _ = stringify!($b); 1 })+)); ::futures::try_join!($($b),+) }}; }
 pub use crate::{lazy_joiner, transposing_joiner, value_joiner};
 
